@@ -137,7 +137,13 @@ def build_term18(t, fr, wraps):
     while k < len(ops):
         w = next((w_ for w_ in wraps if w_[0] == k), None)
         if w:
-            res = res * NO(Mul(*ops[k:k + w[1]]))
+            inner = Mul(*ops[k:k + w[1]])
+            if not isinstance(inner, Mul) or \
+                    any(isinstance(a, Pow) for a in inner.args):
+                # the same operator twice in a row is a sympy Pow, which
+                # sympy's NO cannot hold (AttributeError '_sortkey')
+                raise BadCase("power of an operator inside NO")
+            res = res * NO(inner)
             k += w[1]
         else:
             res = res * ops[k]
